@@ -1,50 +1,385 @@
 import Scion.Model.Signed
+import Scion.Proofs.Signed
 /-!
 # C38 — Signed control-plane messages verify only when untouched
 
 Property theorems only.  Model: `Scion.Model.Signed` (tied to `pkg/scrypto/signed` by
-`harness/cmd/signed`).  ECDSA and the hash are a parameter (`Scheme`); the theorems hold for every
-scheme satisfying the stated ideal-signature hypotheses.
+`harness/cmd/signed`).  ECDSA and the hash are a parameter (`Scheme`): the theorems hold for every
+scheme satisfying the ideal-signature hypotheses `Ideal` / `Complete` stated below (satisfiable:
+see the `example` at the end).  The protobuf *encoder* is concrete (`encHeader`, `encHdrAndBody`,
+byte-exact against `proto.Marshal`), the protobuf *parser* is a parameter (`Framing`) about which
+only round-trip facts for the messages that were really signed are assumed (`SoundFor`).
 -/
 namespace Scion.C38
 open Scion.Signed Scion.Util
 
-/-- well-formed headers: what `Sign` accepts and `Header` ↔ protobuf maps one to one -/
-def WF (h : Header) : Prop := algoKnown h.algo = true
+/-! ## Assumptions, spelled out -/
 
-/-- assumptions on the `HeaderAndBody` framing (protobuf; tied by the engine, see registry) -/
-structure Framing.Sound (F : Framing) : Prop where
-  /-- `extractHeaderAndBody` inverts what `Sign` marshals -/
-  roundtrip : ∀ h b, WF h → F.parse (F.enc h b) = some (h, b)
-  /-- a marshalled `HeaderAndBody` that is a prefix of another one carries the same header -/
-  prefixCoherent : ∀ h0 b0 h b, WF h0 → WF h → F.enc h0 b0 <+: F.enc h b → h0 = h
+/-- the parser inverts the encoder on the message `(h, b)` (tied: every generated message is parsed
+back by the real `proto.Unmarshal`s) -/
+structure SoundFor (F : Framing) (h : Header) (b : Bytes) : Prop where
+  outer : F.parseOuter (enc h b) = some (encHeader h, b, [])
+  hdr : F.parseHdr (encHeader h) = some h
+
+/-- an absent header field parses to the zero header, whose algorithm is unknown -/
+def EmptyHdrUnknown (F : Framing) : Prop :=
+  ∀ h, F.parseHdr [] = some h → algoKnown h.algo = false
+
+/-- one call of `Sign` by the holder of a private key -/
+structure Call (SK : Type) where
+  sk : SK
+  rnd : Nat
+  h : Header
+  body : Bytes
+  ad : List Bytes
+
+def Call.run {SK PK : Type} (S : Scheme SK PK) (c : Call SK) : Except Err SignedMessage :=
+  signMsg S c.h c.body (some c.sk) c.rnd c.ad
+
+/-- **Ideal signature scheme** (unforgeability, symbolically): whatever the primitive accepts under
+`pk` for `(algo, pre-image)` was handed to the primitive by a successful `Sign` call of the holder of
+the matching private key, `hist` being all such calls.  (This is where hash collisions and
+forgeries are assumed away.) -/
+def Ideal {SK PK : Type} (S : Scheme SK PK) (hist : List (Call SK)) : Prop :=
+  ∀ pk algo m σ, S.verify pk algo m σ = true →
+    ∃ c ∈ hist, ∃ msg, S.pub c.sk = pk ∧ c.h.algo = algo ∧ c.run S = .ok msg ∧
+      m = preimage msg.hb c.ad
+
+/-- signatures produced by the calls of the history are accepted by the primitive -/
+def Complete {SK PK : Type} (S : Scheme SK PK) (hist : List (Call SK)) : Prop :=
+  ∀ c ∈ hist, ∀ msg, c.run S = .ok msg →
+    S.verify (S.pub c.sk) c.h.algo (preimage msg.hb c.ad) msg.sig = true
+
+/-- "`(h, b, A)` was produced by the private key matching `pk`": some successful `Sign` call of the
+key holder had exactly this header, body and concatenated associated data -/
+def SignedBy {SK PK : Type} (S : Scheme SK PK) (hist : List (Call SK)) (pk : PK)
+    (h : Header) (b : Bytes) (A : Bytes) : Prop :=
+  ∃ c ∈ hist, ∃ msg, S.pub c.sk = pk ∧ c.h = h ∧ c.body = b ∧ c.ad.flatten = A ∧ c.run S = .ok msg
+
+/-! ## Facts about `Sign` / `Verify` as coded -/
 
 theorem adLenOf_eq_length_flatten (ad : List Bytes) : adLenOf ad = ad.flatten.length := by
   induction ad with
   | nil => rfl
   | cons a t ih => simp [adLenOf, List.flatten_cons] at *
 
-/-- **The signature input is an injective function of (header, body, concatenated associated
-data)** once the associated-data length recorded in the header is enforced (as `Sign` and `Verify`
-both do): a shift of the boundary between message and associated data is detected. -/
-theorem signatureInput_injective (F : Framing) (hF : Framing.Sound F)
-    (h0 h : Header) (b0 b : Bytes) (A0 A : Bytes) (w0 : WF h0) (w : WF h)
-    (l0 : (A0.length : Int) = h0.adLen) (l : (A.length : Int) = h.adLen)
-    (e : F.enc h0 b0 ++ A0 = F.enc h b ++ A) : h0 = h ∧ b0 = b ∧ A0 = A := by
-  have hh : h0 = h := by
-    rcases List.append_eq_append_iff.mp e with ⟨x, hx, _⟩ | ⟨x, hx, _⟩
-    · exact hF.prefixCoherent h0 b0 h b w0 w ⟨x, hx.symm⟩
-    · exact (hF.prefixCoherent h b h0 b0 w w0 ⟨x, hx.symm⟩).symm
+/-- `checkPubKeyAlgo` accepts exactly: algorithm in the table ∧ ECDSA key -/
+theorem checkPubKeyAlgo_ok_iff (a : Nat) (k : KeyKind) :
+    checkPubKeyAlgo a k = .ok () ↔ algoKnown a = true ∧ k = .ecdsa := by
+  unfold checkPubKeyAlgo
+  cases hk : algoKnown a <;> cases k <;> simp
+
+/-- what a successful `Sign` establishes -/
+theorem signMsg_ok {SK PK : Type} (S : Scheme SK PK) (h : Header) (b : Bytes) (sk : SK) (rnd : Nat)
+    (ad : List Bytes) (msg : SignedMessage) (hs : signMsg S h b (some sk) rnd ad = .ok msg) :
+    msg.hb = enc h b ∧ msg.sig = S.sign sk rnd h.algo (preimage (enc h b) ad) ∧
+    (adLenOf ad : Int) = h.adLen ∧ algoKnown h.algo = true ∧ S.kind (S.pub sk) = .ecdsa := by
+  simp only [signMsg, signInput] at hs
+  split at hs
+  · cases hs
+  · rename_i hb pre hin
+    split at hin
+    · cases hin
+    · rename_i hlen
+      split at hin
+      · cases hin
+      · rename_i hchk
+        have hk := (checkPubKeyAlgo_ok_iff _ _).mp (by rw [hchk])
+        cases hin; cases hs
+        exact ⟨rfl, rfl, by simpa using hlen, hk.1, hk.2⟩
+
+/-- what a successful `Verify` establishes (every guard of the code) -/
+theorem verifyMsg_ok {SK PK : Type} (F : Framing) (S : Scheme SK PK) (m : SignedMessage) (pk : PK)
+    (ad : List Bytes) (h : Header) (b : Bytes) (hv : verifyMsg F S m (some pk) ad = .ok (h, b)) :
+    ∃ e u, F.parseOuter m.hb = some (e, b, u) ∧ F.parseHdr e = some h ∧
+      encHdrAndBody e b ++ u = m.hb ∧ (adLenOf ad : Int) = h.adLen ∧ algoKnown h.algo = true ∧
+      S.kind pk = .ecdsa ∧ S.verify pk h.algo (preimage m.hb ad) m.sig = true := by
+  simp only [verifyMsg] at hv
+  split at hv
+  · cases hv
+  · rename_i h' b' hex
+    split at hv
+    · cases hv
+    · rename_i hcan
+      split at hv
+      · cases hv
+      · rename_i hlen
+        split at hv
+        · cases hv
+        · rename_i hchk
+          split at hv
+          · rename_i hsig
+            cases hv
+            have hk := (checkPubKeyAlgo_ok_iff _ _).mp (by rw [hchk])
+            simp only [extract] at hex
+            split at hex
+            · cases hex
+            · rename_i e b'' u hpo
+              split at hex
+              · cases hex
+              · rename_i h'' hph
+                cases hex
+                refine ⟨e, u, hpo, hph, ?_, by simpa using hlen, hk.1, hk.2, hsig⟩
+                simp only [canonical, hpo] at hcan
+                simpa using hcan
+          · cases hv
+
+/-! ## The signature input determines header, body and associated data -/
+
+/-- **`signatureInput_injective`.**  The byte string handed to the primitive, `HeaderAndBody ‖
+associated data`, determines the header, the body and the concatenated associated data: if the
+input of an honest `Sign` call `(h0, b0, A0)` equals the input `Verify` computes for a raw message
+`hb` (any bytes that pass its parser, its canonical-encoding guard, and its length and algorithm
+checks) with associated data `A`, then `hb` is the signed `HeaderAndBody`, and header, body and
+associated data coincide.  The associated-data length inside the header is what makes a shift of
+the `hb`/`A` boundary detectable. -/
+theorem signatureInput_injective (F : Framing) (hE : EmptyHdrUnknown F)
+    (h0 : Header) (b0 A0 : Bytes) (hs : SoundFor F h0 b0) (k0 : algoKnown h0.algo = true)
+    (l0 : (A0.length : Int) = h0.adLen)
+    (hb A e b u : Bytes) (h : Header)
+    (po : F.parseOuter hb = some (e, b, u)) (ph : F.parseHdr e = some h)
+    (can : encHdrAndBody e b ++ u = hb) (k : algoKnown h.algo = true)
+    (l : (A.length : Int) = h.adLen)
+    (eq : enc h0 b0 ++ A0 = hb ++ A) :
+    hb = enc h0 b0 ∧ h = h0 ∧ b = b0 ∧ A = A0 := by
+  have e0ne := encHeader_ne_nil h0 k0
+  have ene : e ≠ [] := by
+    intro he; subst he
+    have := hE h ph
+    rw [k] at this; cases this
+  -- the two strings are prefix related and both start with a field-1 frame
+  have hpr : PR (enc h0 b0) hb := PR.of_append_eq eq
+  rw [← can] at hpr
+  unfold enc encHdrAndBody at hpr
+  rw [List.append_assoc] at hpr
+  obtain ⟨ee, _⟩ := frame_PR e0ne ene hpr
+  subst ee
+  have hh : h = h0 := by
+    have := hs.hdr; rw [ph] at this; cases this; rfl
   subst hh
-  have hl : A0.length = A.length := by omega
-  have hlen : (F.enc h0 b0).length = (F.enc h0 b).length := by
-    have := congrArg List.length e
+  have hlen : (enc h b0).length = hb.length := by
+    have := congrArg List.length eq
     simp only [List.length_append] at this
     omega
-  obtain ⟨e1, e2⟩ := List.append_inj e hlen
-  refine ⟨rfl, ?_, e2⟩
-  have r0 := hF.roundtrip h0 b0 w0
-  rw [e1, hF.roundtrip h0 b w0] at r0
-  cases r0; rfl
+  obtain ⟨e1, e2⟩ := List.append_inj eq hlen
+  subst e1
+  have := hs.outer
+  rw [po] at this
+  cases this
+  exact ⟨rfl, rfl, rfl, e2.symm⟩
+
+/-! ## The property -/
+
+/-- **Soundness of `Verify`** (`verify_returns_signed`): if a message verifies under `pk` and
+returns `(h, b)`, then the holder of the private key matching `pk` signed exactly header `h`, body
+`b` and the concatenated associated data, and the verified bytes are the signed `HeaderAndBody`. -/
+theorem verify_returns_signed {SK PK : Type} (F : Framing) (S : Scheme SK PK) (hist : List (Call SK))
+    (hE : EmptyHdrUnknown F) (hF : ∀ c ∈ hist, SoundFor F c.h c.body) (hI : Ideal S hist)
+    (m : SignedMessage) (pk : PK) (ad : List Bytes) (h : Header) (b : Bytes)
+    (hv : verifyMsg F S m (some pk) ad = .ok (h, b)) :
+    SignedBy S hist pk h b ad.flatten ∧ m.hb = enc h b := by
+  obtain ⟨e, u, po, ph, can, hl, hk, _, hsig⟩ := verifyMsg_ok F S m pk ad h b hv
+  obtain ⟨c, hc, msg, hpk, _, hrun, hpre⟩ := hI pk h.algo _ m.sig hsig
+  obtain ⟨hhb, _, hl0, hk0, _⟩ := signMsg_ok S c.h c.body c.sk c.rnd c.ad msg hrun
+  rw [adLenOf_eq_length_flatten] at hl hl0
+  unfold preimage at hpre
+  rw [hhb] at hpre
+  obtain ⟨e1, e2, e3, e4⟩ := signatureInput_injective F hE c.h c.body c.ad.flatten (hF c hc) hk0 hl0
+    m.hb ad.flatten e b u h po ph can hk hl hpre.symm
+  exact ⟨⟨c, hc, msg, hpk, e2.symm, e3.symm, e4.symm, hrun⟩, by rw [e1, e2, e3]⟩
+
+/-- **Completeness**: what `Sign` produced verifies under the matching public key, returns exactly
+the signed header and body, and depends on the associated data only through its concatenation
+(`["ab","c"]` and `["a","bc"]` are the same data). -/
+theorem sign_then_verify {SK PK : Type} (F : Framing) (S : Scheme SK PK) (hist : List (Call SK))
+    (hC : Complete S hist) (c : Call SK) (hc : c ∈ hist) (hF : SoundFor F c.h c.body)
+    (msg : SignedMessage) (hrun : c.run S = .ok msg) (ad' : List Bytes)
+    (had : ad'.flatten = c.ad.flatten) :
+    verifyMsg F S msg (some (S.pub c.sk)) ad' = .ok (c.h, c.body) := by
+  obtain ⟨hhb, _, hl0, hk0, hkind⟩ := signMsg_ok S c.h c.body c.sk c.rnd c.ad msg hrun
+  have hver := hC c hc msg hrun
+  have hl : (adLenOf ad' : Int) = c.h.adLen := by
+    rw [adLenOf_eq_length_flatten, had, ← adLenOf_eq_length_flatten]; exact hl0
+  have hchk : checkPubKeyAlgo c.h.algo (S.kind (S.pub c.sk)) = .ok () :=
+    (checkPubKeyAlgo_ok_iff _ _).mpr ⟨hk0, hkind⟩
+  have hpre : preimage msg.hb ad' = preimage msg.hb c.ad := by simp [preimage, had]
+  have hex : extract F msg.hb = some (c.h, c.body) := by
+    simp [extract, hhb, hF.outer, hF.hdr]
+  have hcan : canonical F msg.hb = true := by
+    unfold canonical
+    rw [hhb, hF.outer]
+    simp [enc]
+  simp [verifyMsg, hex, hcan, hl, hchk, hpre, hver]
+
+/-- **`verify_iff_signed`** — the first sentence of the statement: a message (in the encoding
+`Sign` produces) verifies under a public key, for some signature, iff it was produced by the
+matching private key over the same header, body and concatenated associated data. -/
+theorem verify_iff_signed {SK PK : Type} (F : Framing) (S : Scheme SK PK) (hist : List (Call SK))
+    (hE : EmptyHdrUnknown F) (hF : ∀ c ∈ hist, SoundFor F c.h c.body) (hI : Ideal S hist)
+    (hC : Complete S hist) (pk : PK) (h : Header) (b : Bytes) (ad : List Bytes) :
+    (∃ σ, verifyMsg F S ⟨enc h b, σ⟩ (some pk) ad = .ok (h, b)) ↔ SignedBy S hist pk h b ad.flatten := by
+  constructor
+  · rintro ⟨σ, hv⟩
+    exact (verify_returns_signed F S hist hE hF hI _ pk ad h b hv).1
+  · rintro ⟨c, hc, msg, hpk, hh, hb, had, hrun⟩
+    obtain ⟨hhb, _⟩ := signMsg_ok S c.h c.body c.sk c.rnd c.ad msg hrun
+    refine ⟨msg.sig, ?_⟩
+    have := sign_then_verify F S hist hC c hc (hF c hc) msg hrun ad had.symm
+    rw [hpk, hh, hb] at this
+    rw [hh, hb] at hhb
+    rw [← hhb]
+    exact this
+
+/-- **Any change is rejected** (header, body, associated data, key): when the only signature the
+key holders ever produced is `c`, then whatever verifies — any raw message bytes, any signature
+bytes, any key, any associated data — has the signed `HeaderAndBody`, the signed concatenated
+associated data, the matching public key, and returns the signed header and body. -/
+theorem only_the_signed_message_verifies {SK PK : Type} (F : Framing) (S : Scheme SK PK)
+    (c : Call SK) (hE : EmptyHdrUnknown F) (hF : SoundFor F c.h c.body) (hI : Ideal S [c])
+    (m : SignedMessage) (pk : PK) (ad : List Bytes) (h : Header) (b : Bytes)
+    (hv : verifyMsg F S m (some pk) ad = .ok (h, b)) :
+    pk = S.pub c.sk ∧ m.hb = enc c.h c.body ∧ ad.flatten = c.ad.flatten ∧ h = c.h ∧ b = c.body := by
+  obtain ⟨⟨c', hc', _, hpk, hh, hb, had, _⟩, hhb⟩ :=
+    verify_returns_signed F S [c] hE (by simpa using hF) hI m pk ad h b hv
+  simp only [List.mem_singleton] at hc'
+  subst hc'
+  exact ⟨hpk.symm, by rw [hhb, hh, hb], had.symm, hh.symm, hb.symm⟩
+
+/-- **An algorithm inconsistent with the key makes both `Sign` and `Verify` fail** (unknown
+algorithm, or a key that is not ECDSA). -/
+theorem algo_key_mismatch_rejected {SK PK : Type} (F : Framing) (S : Scheme SK PK)
+    (m : SignedMessage) (pk : PK) (ad : List Bytes) (h : Header) (b : Bytes)
+    (hx : extract F m.hb = some (h, b)) (bad : ¬ (algoKnown h.algo = true ∧ S.kind pk = .ecdsa)) :
+    ∃ e, verifyMsg F S m (some pk) ad = .error e := by
+  have hne : checkPubKeyAlgo h.algo (S.kind pk) ≠ .ok () :=
+    fun hok => bad ((checkPubKeyAlgo_ok_iff _ _).mp hok)
+  simp only [verifyMsg, hx]
+  split
+  · exact ⟨_, rfl⟩
+  · split
+    · exact ⟨_, rfl⟩
+    · split
+      · exact ⟨_, rfl⟩
+      · rename_i hok; exact absurd hok hne
+
+theorem algo_key_mismatch_sign_rejected {SK PK : Type} (S : Scheme SK PK) (h : Header) (b : Bytes)
+    (sk : SK) (rnd : Nat) (ad : List Bytes)
+    (bad : ¬ (algoKnown h.algo = true ∧ S.kind (S.pub sk) = .ecdsa)) :
+    ∃ e, signMsg S h b (some sk) rnd ad = .error e := by
+  cases hs : signMsg S h b (some sk) rnd ad with
+  | error e => exact ⟨e, rfl⟩
+  | ok msg =>
+    obtain ⟨_, _, _, hk, hkind⟩ := signMsg_ok S h b sk rnd ad msg hs
+    exact absurd ⟨hk, hkind⟩ bad
+
+/-- a header whose associated-data length differs from the data supplied is rejected by `Verify`
+(and, `signMsg_ok`, never signed) -/
+theorem ad_length_mismatch_rejected {SK PK : Type} (F : Framing) (S : Scheme SK PK)
+    (m : SignedMessage) (pk : PK) (ad : List Bytes) (h : Header) (b : Bytes)
+    (hx : extract F m.hb = some (h, b)) (bad : (ad.flatten.length : Int) ≠ h.adLen) :
+    ∃ e, verifyMsg F S m (some pk) ad = .error e := by
+  rw [← adLenOf_eq_length_flatten] at bad
+  simp only [verifyMsg, hx]
+  split
+  · exact ⟨_, rfl⟩
+  · exact ⟨_, rfl⟩
+
+/-! ## The signature clause (KNOWN FINDING `C38/ecdsa-s-negation`)
+
+The statement also demands that *any change to the signature* makes verification fail.  That is
+a uniqueness property of the primitive and does not follow from unforgeability; for ECDSA as used
+(`ecdsa.VerifyASN1`) it is false: `(r, n − s)` verifies whenever `(r, s)` does (reproduced by the
+engine on every run, reported as KNOWN-FINDING).  The full statement is kept here; the proved part
+is everything above (`only_the_signed_message_verifies` leaves exactly `m.sig` unconstrained). -/
+
+/-- the full mutation clause of the statement, including the signature -/
+def AnyChangeRejected {SK PK : Type} (F : Framing) (S : Scheme SK PK) (c : Call SK) : Prop :=
+  ∀ msg, c.run S = .ok msg → ∀ m pk ad h b, verifyMsg F S m (some pk) ad = .ok (h, b) →
+    pk = S.pub c.sk ∧ m.hb = msg.hb ∧ m.sig = msg.sig ∧ ad.flatten = c.ad.flatten ∧
+    h = c.h ∧ b = c.body
+
+/-- the part of `AnyChangeRejected` that holds: everything except `m.sig = msg.sig` -/
+theorem anyChangeRejected_partial {SK PK : Type} (F : Framing) (S : Scheme SK PK) (c : Call SK)
+    (hE : EmptyHdrUnknown F) (hF : SoundFor F c.h c.body) (hI : Ideal S [c]) :
+    ∀ msg, c.run S = .ok msg → ∀ m pk ad h b, verifyMsg F S m (some pk) ad = .ok (h, b) →
+      pk = S.pub c.sk ∧ m.hb = msg.hb ∧ ad.flatten = c.ad.flatten ∧ h = c.h ∧ b = c.body := by
+  intro msg hrun m pk ad h b hv
+  obtain ⟨h1, h2, h3, h4, h5⟩ := only_the_signed_message_verifies F S c hE hF hI m pk ad h b hv
+  obtain ⟨hhb, _⟩ := signMsg_ok S c.h c.body c.sk c.rnd c.ad msg hrun
+  exact ⟨h1, by rw [h2, hhb], h3, h4, h5⟩
+
+/-! ## Non-vacuity: the hypotheses are satisfiable, and do not imply signature uniqueness -/
+
+namespace Toy
+
+def h0 : Header := ⟨1, [1, 2], 1700000000, 5, [9], 3⟩
+def b0 : Bytes := [0xde, 0xad]
+def ad0 : List Bytes := [[1], [2, 3]]
+def c0 : Call Nat := ⟨7, 0, h0, b0, ad0⟩
+
+/-- a toy scheme: key 7 has signed exactly one pre-image; the "signature" is `[0]`, and `[1]`
+verifies as well (as `(r, n-s)` does for ECDSA) -/
+def S : Scheme Nat Nat :=
+  { pub := id, kind := fun _ => .ecdsa,
+    sign := fun _ _ _ _ => [0],
+    verify := fun pk algo m σ =>
+      pk == 7 && algo == 1 && m == preimage (enc h0 b0) ad0 && (σ == [0] || σ == [1]) }
+
+/-- a parser that knows the one message -/
+def F : Framing :=
+  { parseHdr := fun e => if e = encHeader h0 then some h0 else none
+    parseOuter := fun x => if x = enc h0 b0 then some (encHeader h0, b0, []) else none }
+
+theorem run_ok : c0.run S = .ok ⟨enc h0 b0, [0]⟩ := by
+  simp [Call.run, signMsg, signInput, c0, S, checkPubKeyAlgo, algoKnown, h0, ad0, adLenOf]
+
+theorem sound : SoundFor F h0 b0 := ⟨by simp [F], by simp [F]⟩
+
+theorem emptyUnknown : EmptyHdrUnknown F := by
+  intro h hh
+  have hne := encHeader_ne_nil h0 (by decide)
+  have : ([] : Bytes) ≠ encHeader h0 := fun e => hne e.symm
+  simp [F, this] at hh
+
+theorem ideal : Ideal S [c0] := by
+  intro pk algo m σ hv
+  simp only [S, Bool.and_eq_true, beq_iff_eq] at hv
+  obtain ⟨⟨⟨h1, h2⟩, h3⟩, _⟩ := hv
+  exact ⟨c0, by simp, _, h1.symm, h2.symm, run_ok, h3⟩
+
+theorem complete : Complete S [c0] := by
+  intro c hc msg hrun
+  simp only [List.mem_singleton] at hc
+  subst hc
+  rw [run_ok] at hrun
+  cases hrun
+  simp [S, c0, h0]
+
+end Toy
+
+/-- the hypotheses of the theorems above hold of a concrete scheme/parser, and the conclusion is not
+trivial: the toy message verifies under key 7 -/
+example : verifyMsg Toy.F Toy.S ⟨enc Toy.h0 Toy.b0, [0]⟩ (some 7) [[1, 2], [3]]
+    = .ok (Toy.h0, Toy.b0) :=
+  sign_then_verify Toy.F Toy.S [Toy.c0] Toy.complete Toy.c0 (by simp) Toy.sound _ Toy.run_ok
+    [[1, 2], [3]] (by simp [Toy.c0, Toy.ad0])
+
+/-- **The ideal-signature hypotheses do not give the signature clause**: in the toy scheme (ideal
+and complete) a different signature verifies, so `AnyChangeRejected` fails there — the model-level
+witness of KNOWN FINDING `C38/ecdsa-s-negation`. -/
+theorem signature_clause_not_implied :
+    Ideal Toy.S [Toy.c0] ∧ Complete Toy.S [Toy.c0] ∧ ¬ AnyChangeRejected Toy.F Toy.S Toy.c0 := by
+  refine ⟨Toy.ideal, Toy.complete, ?_⟩
+  intro hall
+  have hv : verifyMsg Toy.F Toy.S ⟨enc Toy.h0 Toy.b0, [1]⟩ (some 7) Toy.ad0
+      = .ok (Toy.h0, Toy.b0) := by
+    have hex : extract Toy.F (enc Toy.h0 Toy.b0) = some (Toy.h0, Toy.b0) := by
+      simp [extract, Toy.F]
+    have hcan : canonical Toy.F (enc Toy.h0 Toy.b0) = true := by
+      simp [canonical, Toy.F, enc]
+    simp only [verifyMsg, hex, hcan]
+    simp [Toy.S, Toy.ad0, Toy.h0, adLenOf, checkPubKeyAlgo, algoKnown]
+  have := (hall _ Toy.run_ok _ _ _ _ _ hv).2.2.1
+  simp at this
 
 end Scion.C38
